@@ -298,47 +298,89 @@ def arm_region(fn, sw, label):
         region = set()
     return [b for b in region if b is not ip], {ip}
 
+def pattern_calls(fn):
+    return [i for i in fn.insts() if i.op == 'call' and i.callee == '@get_failure_pattern' and i.res]
+
+def dispatch_call(fn):
+    """the get_failure_pattern call whose result is dispatched on last (decoders / planners call it once or twice)"""
+    pcs = pattern_calls(fn)
+    if not pcs:
+        return None
+    return pcs[-1]
+
+INTERESTING = ('@decode_one_data', '@decode_two_data', '@decode_three_data', '@selective_encode', '@fragments_needed_one_data',
+               '@fragments_needed_two_data', '@fragments_needed_three_data')
+
 def refusal_rule(P, r):
-    """R02a: the GE_HD and default arms of every decoder/planner switch over the failure pattern return a negative value"""
+    """R02a: for a failure pattern beyond tolerance (GE_HD, or any value outside the enumeration) the decoder and the planner
+    return a negative value on every path - decided by following the pattern value through the dispatch (switch, if-chain or
+    fall-through groups alike)"""
+    from . import oblig
     enum = pattern_enum(P)
     ge = enum['FAIL_PATTERN_GE_HD']
+    outside = max(enum.values()) + 7
     n = 0
-    for fn, sw in pattern_switches(P):
-        if fn.name == '@get_failure_pattern' or fn.retty == 'void':
-            continue
-        n += 1
-        arms = {'FAIL_PATTERN_GE_HD': dict(sw.cases).get(ge), 'default': sw.targets[0]}
-        for name, lab in arms.items():
-            if lab is None:
+    for u in XOR_UNITS:
+        for fn in P.mod(u).functions.values():
+            if fn.name == '@get_failure_pattern' or fn.retty.strip() == 'void':
                 continue
-            via = reachable_from(fn.blocks[lab]) | {sw.bb}
-            known = dominating_equalities(fn, sw.bb)
-            vals = set()
-            for b in fn.order:
-                t = b.insts[-1]
-                if t.op == 'ret' and b in via and t.ops:
-                    vals |= possible_consts(fn, t.ops[0], via, known=known)
-            inst = f'{fn.name}: arm {name} returns an error'
-            if vals and all(isinstance(v, int) and v < 0 for v in vals):
-                r.ok(inst, func=fn.name, loc=sw.loc, facts={'returns': sorted(vals)})
-            else:
-                r.fail(inst, func=fn.name, sig=f'arm {name} may return {sorted(map(str, vals))}', loc=sw.loc,
-                       msg=f'for a failure pattern beyond the code\'s tolerance {fn.name} may return {sorted(map(str, vals))}: success with unrepaired buffers')
+            pc = dispatch_call(fn)
+            if pc is None:
+                continue
+            n += 1
+            seed = dominating_equalities(fn, pc.bb)
+            for name, v in (('FAIL_PATTERN_GE_HD', ge), ('a value outside the enumeration', outside)):
+                outs = oblig.simulate(fn, pc, v, seed=seed)
+                rets = [val for kind, val, tr in outs if kind == 'ret']
+                inst = f'{fn.name}: pattern {name} returns an error'
+                if rets and all(x is not None and x < 0 for x in rets) and not any(k == 'limit' for k, _, _ in outs):
+                    r.ok(inst, func=fn.name, loc=pc.loc, facts={'returns': sorted(set(rets))})
+                else:
+                    shown = sorted({str(x) for x in rets})
+                    r.fail(inst, func=fn.name, sig=f'pattern {name} may return {shown}', loc=pc.loc,
+                           msg=f'for a failure pattern beyond the code\'s tolerance {fn.name} may return {shown}: success with unrepaired buffers')
     return n
 
 def dominating_equalities(fn, block):
-    """SSA values known to equal a constant at `block` (from dominating `v == c` edges)"""
+    """SSA values known to equal a constant at `block`: from dominating `v == c` edges, and phis in dominating blocks all of
+    whose incoming values are that constant (a constant, or a value the incoming edge tests equal to it - the shape branch
+    threading leaves behind)"""
     from .guards import dominating_edges, edge_condition
-    known = {}
-    for src, dst in dominating_edges(fn, block):
+    from .cfg import dominators, dominates
+    def edge_eq(src, dst):
+        out = {}
         for cond, truth in edge_condition(fn, src, dst):
             d = fn.defs.get(cond) if isinstance(cond, str) else None
             if d is not None and d.op == 'icmp' and ((d.pred == 'eq' and truth) or (d.pred == 'ne' and not truth)):
                 a, b = d.ops
                 if INT.match(b):
-                    known[strip_int_casts(fn, a)] = int(b)
+                    out[strip_int_casts(fn, a)] = int(b)
                 elif INT.match(a):
-                    known[strip_int_casts(fn, b)] = int(a)
+                    out[strip_int_casts(fn, b)] = int(a)
+            elif isinstance(cond, tuple) and cond[0] == 'switch' and len(cond[2]) == 1:
+                out[strip_int_casts(fn, cond[1])] = cond[2][0]
+        return out
+    known = {}
+    for src, dst in dominating_edges(fn, block):
+        known.update(edge_eq(src, dst))
+    idom = dominators(fn)
+    for b in fn.order:
+        if not (b is block or dominates(idom, b, block)):
+            continue
+        for p in b.insts:
+            if p.op != 'phi':
+                break
+            vals = set()
+            for v, l in p.incoming:
+                if INT.match(v):
+                    vals.add(int(v))
+                else:
+                    pb = fn.blocks[l]
+                    e = edge_eq(pb, b)
+                    e.update({k: x for s_, d_ in dominating_edges(fn, pb) for k, x in edge_eq(s_, d_).items()})
+                    vals.add(e.get(strip_int_casts(fn, v), ('?', v)))
+            if len(vals) == 1 and isinstance(next(iter(vals)), int):
+                known[p.res] = next(iter(vals))
     return known
 
 def sentinel_rule(P, r):
@@ -386,118 +428,125 @@ def parse_pattern(name):
     return (int(m.group(1)), int(m.group(2))) if m else None
 
 def machine_rule(P, r):
+    """R05f: classifier transition function and decoder dispatch, decided by following concrete pattern values"""
+    from . import oblig
+    from .cfg import natural_loops
     enum = pattern_enum(P)
     byval = {v: k for k, v in enum.items()}
     bypat = {parse_pattern(k): v for k, v in enum.items() if parse_pattern(k)}
     ge = enum['FAIL_PATTERN_GE_HD']
-    sws = pattern_switches(P)
-    for fn, sw in sws:
-        covered = {v for v, _ in sw.cases}
-        missing = [k for k, v in enum.items() if v not in covered]
-        inst = f'{fn.name}: switch at line {sw.line} has an arm for every failure pattern'
-        if missing:
-            r.fail(inst, func=fn.name, sig='missing arms ' + ','.join(sorted(missing)), loc=sw.loc, msg=f'no explicit arm for {sorted(missing)}')
-        else:
-            r.ok(inst, func=fn.name, loc=sw.loc, facts={'arms': len(sw.cases)})
-    # transition function
+    # ---- transition function of get_failure_pattern: one loop iteration from pattern v with a data / parity erasure
     gfp = P.fn('get_failure_pattern')
-    sw = [s for f_, s in sws if f_ is gfp]
-    if len(sw) != 1:
-        raise AnalysisBroken('anchor vanished: the transition switch of get_failure_pattern')
-    sw = sw[0]
+    loops = natural_loops(gfp)
+    if len(loops) != 1:
+        raise AnalysisBroken('anchor vanished: get_failure_pattern is not a single loop over the missing list')
+    h, body = next(iter(loops.items()))
     kvals = set()
     for ins in gfp.insts():
         if ins.op == 'load':
             root, steps = access_path(P, gfp, ins.ops[0])
             if fields_in_path(steps)[-1:] == [('xor_code_s', 'k')]:
                 kvals.add(ins.res)
-    # merge phi: the phi that receives a value from the arms
-    for val, lab in sw.cases:
-        name = byval.get(val, str(val))
-        pat = parse_pattern(name)
-        if pat is None:
+    # the loop-carried pattern: a phi in the header whose initial value is the enumerator 0D_0P
+    start_pat = bypat.get((0, 0))
+    phis = [p for p in h.insts if p.op == 'phi' and any(v == str(start_pat) for v, l in p.incoming if gfp.blocks[l] not in body)]
+    if len(phis) != 1:
+        raise AnalysisBroken('anchor vanished: loop-carried failure pattern of get_failure_pattern')
+    pat = phis[0]
+    # comparisons "missing_idxs[i] < k"
+    dtests = []
+    for ins in gfp.insts():
+        if ins.op == 'icmp':
+            a, b = strip_int_casts(gfp, ins.ops[0]), strip_int_casts(gfp, ins.ops[1])
+            ad, bd = gfp.defs.get(a), gfp.defs.get(b)
+            if b in kvals and ad is not None and ad.op == 'load' and ins.pred in ('slt', 'sge'):
+                dtests.append((ins, ins.pred == 'slt'))
+            elif a in kvals and bd is not None and bd.op == 'load' and ins.pred in ('sgt', 'sle'):
+                dtests.append((ins, ins.pred == 'sgt'))
+    if not dtests:
+        raise AnalysisBroken('anchor vanished: get_failure_pattern does not compare list elements with k')
+    # loop continuation test: element > -1 ; force "list not exhausted"
+    conts = [c for c in gfp.insts() if c.op == 'icmp' and c.bb is h]
+    first = None
+    for b in gfp.order:
+        if b is h:
+            first = h.insts[0]
+    rets = [i for i in gfp.insts() if i.op == 'ret']
+    hdvals = set()
+    for ins in gfp.insts():
+        if ins.op == 'load':
+            root, steps = access_path(P, gfp, ins.ops[0])
+            if fields_in_path(steps)[-1:] == [('xor_code_s', 'hd')]:
+                hdvals.add(ins.res)
+    for name, v in sorted(enum.items(), key=lambda kv: kv[1]):
+        pp = parse_pattern(name)
+        if pp is None:
             continue
-        region, common = arm_region(gfp, sw, lab)
-        region = set(region)
-        vals = []
-        for b in common:
-            for i in b.insts:
-                if i.op == 'phi':
-                    for v, l in i.incoming:
-                        if gfp.blocks[l] in region:
-                            vals.append(v)
-        a, b_ = pat
-        exp_d = bypat.get((a + 1, b_), ge)
-        exp_p = bypat.get((a, b_ + 1), ge)
-        got = None
-        if len(vals) == 1:
-            v = vals[0]
-            d = gfp.defs.get(v)
-            if INT.match(v):
-                got = (int(v), int(v))
-            elif d is not None and d.op == 'select':
-                c = gfp.defs.get(d.ops[0])
-                if c is not None and c.op == 'icmp' and INT.match(d.ops[1]) and INT.match(d.ops[2]):
-                    x, y = strip_int_casts(gfp, c.ops[0]), strip_int_casts(gfp, c.ops[1])
-                    t, f_ = int(d.ops[1]), int(d.ops[2])
-                    if c.pred == 'slt' and y in kvals:
-                        got = (t, f_)
-                    elif c.pred == 'sge' and y in kvals:
-                        got = (f_, t)
-                    elif c.pred == 'sgt' and x in kvals:
-                        got = (t, f_)
-                    elif c.pred == 'sle' and x in kvals:
-                        got = (f_, t)
-        inst = f'transition from {name}: +data -> {byval.get(exp_d)}, +parity -> {byval.get(exp_p)}'
-        if got is None:
-            r.undecided(inst, loc=sw.loc, msg=f'arm value(s) {vals} not in a recognised form')
-        elif got == (exp_d, exp_p):
-            r.ok(inst, func=gfp.name, loc=gfp.blocks[lab].insts[-1].loc)
+        a, b_ = pp
+        exp = {True: bypat.get((a + 1, b_), ge), False: bypat.get((a, b_ + 1), ge)}
+        got = {}
+        for isdata in (True, False):
+            seed = {pat.res: v}
+            for hv in hdvals:
+                seed[hv] = 3          # every accepted shape has hd in {3, 4} (R05c); the classifier only compares it with a counter
+
+            for ins, sense in dtests:
+                seed[ins.res] = int(isdata == sense)
+            for c in conts:
+                seed[c.res] = 1 if c.pred in ('sgt', 'sge', 'ne') else 0
+            outs = oblig.simulate(gfp, None, None, seed=seed, start=h.insts[len([x for x in h.insts if x.op == 'phi'])], watch=(h, pat.res))
+            vals = set()
+            for kind, val, tr in outs:
+                if kind == 'watch':
+                    vals.add(val)
+                elif kind == 'ret':
+                    vals.add(val)         # the loop left early (pattern GE_HD returns at once)
+            got[isdata] = vals
+        inst = f'transition from {name}: +data -> {byval.get(exp[True])}, +parity -> {byval.get(exp[False])}'
+        if any(None in g or not g for g in got.values()):
+            r.undecided(inst, loc=h.insts[-1].loc, msg=f'next pattern not determined: {got}')
+        elif got[True] == {exp[True]} and got[False] == {exp[False]}:
+            r.ok(inst, func=gfp.name, loc=h.insts[-1].loc)
         else:
-            r.fail(inst, func=gfp.name, sig=f'{name}: +data->{byval.get(got[0], got[0])} +parity->{byval.get(got[1], got[1])}',
-                   loc=gfp.blocks[lab].insts[-1].loc,
-                   msg=f'from {name} the classifier goes to {byval.get(got[0], got[0])} on a data erasure and {byval.get(got[1], got[1])} on a parity erasure')
-    # decoder arms
+            show = lambda s_: '/'.join(byval.get(x, str(x)) for x in sorted(s_))
+            r.fail(inst, func=gfp.name, sig=f'{name}: +data->{show(got[True])} +parity->{show(got[False])}', loc=h.insts[-1].loc,
+                   msg=f'from {name} the classifier goes to {show(got[True])} on a data erasure and {show(got[False])} on a parity erasure')
+    # ---- decoder dispatch
     dec = P.fn('xor_hd_decode')
-    dsw = [s for f_, s in sws if f_ is dec]
-    if len(dsw) != 1:
-        raise AnalysisBroken('anchor vanished: the decoder switch of xor_hd_decode')
-    dsw = dsw[0]
+    pc = dispatch_call(dec)
+    if pc is None:
+        raise AnalysisBroken('anchor vanished: xor_hd_decode does not classify the failure pattern')
     decoders = {1: '@decode_one_data', 2: '@decode_two_data', 3: '@decode_three_data'}
-    for val, lab in dsw.cases:
-        name = byval.get(val, str(val))
-        pat = parse_pattern(name)
-        if pat is None:
+    dp = dec.params[-1][1]
+    for name, v in sorted(enum.items(), key=lambda kv: kv[1]):
+        pp = parse_pattern(name)
+        if pp is None:
             continue
-        region, common = arm_region(dec, dsw, lab)
-        calls = [i for b in region for i in b.insts if i.op == 'call']
-        callees = {i.callee for i in calls}
-        a, b_ = pat
+        a, b_ = pp
+        res = {}
+        for dpv in (0, 1):
+            outs = oblig.simulate(dec, pc, v, stop_calls=INTERESTING, seed={dp: dpv})
+            res[dpv] = {val.callee for kind, val, tr in outs if kind == 'event'}
+        called = res[0] | res[1]
         want = decoders.get(a)
-        have = {c for c in callees if c in decoders.values()}
-        inst = f'xor_hd_decode arm {name}'
+        have = {c for c in called if c in decoders.values()}
+        inst = f'xor_hd_decode pattern {name}'
         if (want is None and have) or (want is not None and have != {want}):
-            r.fail(inst + ' data decoder', func=dec.name, sig=f'{name}: calls {sorted(have)}', loc=dec.blocks[lab].insts[0].loc,
-                   msg=f'arm {name} must use {want or "no data decoder"}, it calls {sorted(have) or "none"}')
+            r.fail(inst + ' data decoder', func=dec.name, sig=f'{name}: calls {sorted(have)}', loc=pc.loc,
+                   msg=f'pattern {name} must use {want or "no data decoder"}, the dispatch reaches {sorted(have) or "none"}')
         else:
-            r.ok(inst + f': data decoder {want or "none"}', func=dec.name, loc=dec.blocks[lab].insts[0].loc)
-        se = [i for i in calls if i.callee == '@selective_encode']
-        if b_ > 0 and not se:
-            r.fail(inst + ' parity', func=dec.name, sig=f'{name}: no selective_encode', loc=dec.blocks[lab].insts[0].loc,
-                   msg=f'arm {name} has erased parities but never re-encodes them (reconstruct of a parity would return stale bytes)')
-        elif b_ == 0 and se:
-            r.fail(inst + ' parity', func=dec.name, sig=f'{name}: unexpected selective_encode', loc=se[0].loc, msg='re-encodes parity although none is erased')
-        elif b_ > 0:
-            # guarded by decode_parity (the last parameter)
-            F = Facts(P, dec, se[0].bb)
-            dp = f'arg{len(dec.params) - 1}'
-            if any(p == 'ne' and a_ == dp and b2 == '0' for p, a_, b2 in F.facts):
-                r.ok(inst + ': selective_encode under decode_parity', func=dec.name, loc=se[0].loc)
-            else:
-                r.fail(inst + ' parity guard', func=dec.name, sig=f'{name}: selective_encode not guarded by decode_parity', loc=se[0].loc,
-                       msg='parity re-encode is not conditional on decode_parity')
+            r.ok(inst + f': data decoder {want or "none"}', func=dec.name, loc=pc.loc)
+        se1, se0 = '@selective_encode' in res[1], '@selective_encode' in res[0]
+        if b_ > 0 and not se1:
+            r.fail(inst + ' parity', func=dec.name, sig=f'{name}: no selective_encode', loc=pc.loc,
+                   msg=f'pattern {name} has erased parities but they are never re-encoded (reconstruct of a parity would return stale bytes)')
+        elif b_ > 0 and se0:
+            r.fail(inst + ' parity guard', func=dec.name, sig=f'{name}: selective_encode not guarded by decode_parity', loc=pc.loc,
+                   msg='parity re-encode is not conditional on decode_parity')
+        elif b_ == 0 and (se0 or se1):
+            r.fail(inst + ' parity', func=dec.name, sig=f'{name}: unexpected selective_encode', loc=pc.loc, msg='re-encodes parity although none is erased')
         else:
-            r.ok(inst + ': no parity work', func=dec.name, trivial=True)
+            r.ok(inst + (': selective_encode under decode_parity' if b_ > 0 else ': no parity work'), func=dec.name, loc=pc.loc, trivial=(b_ == 0))
 
 # ------------------------------------------------------------------ R05g XOR kernel covers every byte
 def type_bytes(ty):
